@@ -451,6 +451,12 @@ class Rig:
                 elif k == 'exit_post':
                     fault('exit', self_, 'init')
 
+            def stop_logging(self_):
+                if plan.get('stop_logging') == 'raise' and not plan.get('_log_fired'):
+                    plan['_log_fired'] = True             # closing the log files fails (a full disk)
+                    raise Fault('injected at stop_logging')
+                return super().stop_logging()
+
             def setup(self_, config):
                 note('setup')
                 fault(plan.get('setup'), self_, 'setup')
@@ -702,6 +708,9 @@ class Scenario:
                 if not typeerror:
                     planF['init'] = ch
                     self.injected.append(('init', 'exit' if ch in ('exit_post', 'exit_pre') else 'raise'))
+            elif st == 'handlers' and ch == 'log_raise':
+                planF['stop_logging'] = 'raise'
+                self.injected.append(('handlers', 'raise'))
             elif st in ('setup', 'shutdown', 'fini') and ch != 'ok':
                 planF[st] = ch
                 self.injected.append((st, ch))
@@ -846,7 +855,7 @@ def judge_single(sc: Scenario, o, ident=None):
     ann_kd = None
     if len(kinds) > 1 and 'foreign' not in kinds and kseq[-1] == 'error' and all(k in ('clean', 'prop_clean') for k in kseq[:-1]):
         kinds = {'error'}
-        if causes[-1][1] == 'fini':
+        if causes[-1][1] in ('fini', 'handlers'):
             ann_kd = 'clean'         # the exit message left before fini() failed: it says what was known then
     if len(kinds) == 1:
         kd = next(iter(kinds))
@@ -1209,6 +1218,10 @@ def judge_lineage(sc: Scenario, o, events):
         v.append(('C18_Wellformed', f'{[k for k in kinds[terms[0] + 1:] if k not in TERMINALS]} after the terminal event: {" ".join(kinds)}',
                   {'kind': 'after_terminal'}))
     causes = sc.causes()
+    # a run that was ending cleanly and then fails in a later stage (shutdown(), fini(), closing the log) ended by that error
+    if len(causes) > 1 and causes[-1][0] == 'fault' and causes[-1][2] == 'raise' and all(
+            (c[0] == 'fault' and c[2] == 'exit') or c[0] in ('stop', 'deadline') or (c[0] == 'msg' and c[1] == 'clean') for c in causes[:-1]):
+        causes = [causes[-1]]
     if len(causes) == 1 and terms:
         c = causes[0]
         if c[0] == 'fault':
